@@ -2414,6 +2414,9 @@ int cif_value_autoinit_numb(cif_value_tp *numb, double val, double su, unsigned 
 
                 (void) setlocale(LC_NUMERIC, locale);
                 free(locale);
+            } else {
+                /* the locale could not be switched (its name could not be copied); not an internal inconsistency */
+                result_code = CIF_ERROR;
             }
 
             return result_code;
